@@ -19,6 +19,7 @@ import (
 	"io/ioutil"
 	"math/rand"
 	"os"
+	"os/exec"
 	"path/filepath"
 	"regexp"
 	"runtime"
@@ -783,10 +784,23 @@ func main() {
 			os.Exit(2)
 		}
 		var w struct {
-			Part    string `json:"part"`
-			History int    `json:"history"`
+			Part     string          `json:"part"`
+			History  int             `json:"history"`
+			Scenario json.RawMessage `json:"scenario"`
 		}
 		json.Unmarshal(v.Witness, &w)
+		if len(w.Scenario) > 0 { // a real-chain witness: replayed by the block-store driver in pool-only mode
+			cmd := exec.Command(os.Getenv("VERIF_C05_BIN"), "--replay", p)
+			cmd.Env = append(os.Environ(), "VERIF_POOL_ONLY=1")
+			cmd.Stdout, cmd.Stderr = os.Stdout, os.Stderr
+			if err := cmd.Run(); err != nil {
+				if ee, ok := err.(*exec.ExitError); ok {
+					os.Exit(ee.ExitCode())
+				}
+				os.Exit(2)
+			}
+			os.Exit(0)
+		}
 		r.Seed = v.Seed
 		part := "seq"
 		if w.Part == "concurrent" {
@@ -855,6 +869,25 @@ func main() {
 		}
 		os.RemoveAll(res.Dir)
 	})
+	// real-chain part: the block-store driver (cmd/c05) in pool-only mode — blocks with transactions
+	// inserted, reorganised away and re-inserted on a booted node, every physical write of chosen
+	// inserts/reorgs a crash point; judged: canonical transactions are marked executed and not pending,
+	// transactions of removed blocks are not marked executed and (without restart) pending again
+	if c05 := os.Getenv("VERIF_C05_BIN"); c05 != "" && mon.ReplayArg() == "" {
+		out := filepath.Join(mon.WorkDir(), "chain-partial.json")
+		cmd := exec.Command(c05)
+		cmd.Env = append(os.Environ(), "VERIF_POOL_ONLY=1", "VERIF_CHILD_OUT="+out, "VERIF_TIER="+r.Tier, fmt.Sprintf("VERIF_SEED=%d", r.Seed))
+		logf, _ := os.Create(filepath.Join(mon.WorkDir(), "chain.log"))
+		cmd.Stdout, cmd.Stderr = logf, logf
+		err := cmd.Run()
+		logf.Close()
+		if err != nil {
+			r.Inconclusive("real-chain part did not complete: %v", err)
+		} else if e := r.Merge(out); e != nil {
+			r.Inconclusive("real-chain part produced no result: %v", e)
+		}
+		r.Count("chain_part_runs", 1)
+	}
 	for s, body := range races {
 		if strings.HasPrefix(s, "middleware.(*Loglock)") && strings.Contains(s, "|middleware.(*Loglock)") {
 			// the chain lock's own timing statistic (Loglock.begin) is written under the read lock;
@@ -873,6 +906,6 @@ func main() {
 		Rule: "sequential: seeded histories of add / block added (from a real pack or arbitrary) with evictions / block removed / pack with generated state nonces / lookups over 5-40 (sometimes 230-290) transactions from 1-6 senders, gate and nonce-checked; every return value compared with a reference model, every pack checked for duplicates, limit, per-sender nonce order and not-ahead-of-expected-nonce, re-pack after un-mark. " +
 			"concurrent: 4-8 goroutines x 20-60 ops over 3-6 hashes with the node's own locking discipline, H6 yields armed; porcupine per-hash linearizability + quiescent never-pending-and-executed invariant; repeated under the race detector. Non-trivial concurrent history: >= 2 operations on one hash overlapped in time",
 		Assumptions: []string{"UnMarkExecuted is modelled as two atomic steps (delete executed mark, re-add) in either order: sound, slightly weaker than the implementation order", "pack and block bookkeeping are serialised by the chain lock as in the node; submission takes no lock"},
-		MustObserve: []string{"seq_histories", "packs", "repack_checks", "conc_histories", "overlapping_same_hash_pairs", "yield_events", "porcupine_ok", "race_detector_batches"},
+		MustObserve: []string{"seq_histories", "packs", "repack_checks", "conc_histories", "overlapping_same_hash_pairs", "yield_events", "porcupine_ok", "race_detector_batches", "chain_part_runs", "pool_tx_checks", "crash_points"},
 	})
 }
